@@ -328,6 +328,185 @@ fn chain_failure(p: &Value) -> Value {
     }
 }
 
+#[derive(Error, Debug)]
+enum FlowLogpError {}
+
+impl LogpError for FlowLogpError {
+    fn is_recoverable(&self) -> bool {
+        true
+    }
+}
+
+/// Standard normal target with an identity normalizing flow.
+#[derive(Clone)]
+struct FlowNormal {
+    dim: usize,
+    /// Number of calls to `update_transformation` so far.
+    updates: std::sync::Arc<std::sync::atomic::AtomicU64>,
+}
+
+/// Identity flow; `id` changes every time the flow is "retrained".
+struct IdentityFlow {
+    id: i64,
+}
+
+impl HasDims for FlowNormal {
+    fn dim_sizes(&self) -> HashMap<String, u64> {
+        HashMap::from([
+            ("unconstrained_parameter".to_string(), self.dim as u64),
+            ("dim".to_string(), self.dim as u64),
+        ])
+    }
+}
+
+impl FlowNormal {
+    fn logp_grad(position: &[f64], grad: &mut [f64]) -> f64 {
+        let mut logp = 0f64;
+        for (g, &x) in grad.iter_mut().zip(position.iter()) {
+            *g = -x;
+            logp -= 0.5 * x * x;
+        }
+        logp
+    }
+}
+
+impl CpuLogpFunc for FlowNormal {
+    type LogpError = FlowLogpError;
+    type FlowParameters = IdentityFlow;
+    type ExpandedVector = Vec<f64>;
+
+    fn dim(&self) -> usize {
+        self.dim
+    }
+
+    fn logp(&mut self, position: &[f64], grad: &mut [f64]) -> Result<f64, Self::LogpError> {
+        Ok(Self::logp_grad(position, grad))
+    }
+
+    fn expand_vector<R>(
+        &mut self,
+        _rng: &mut R,
+        array: &[f64],
+    ) -> Result<Self::ExpandedVector, nuts_rs::CpuMathError>
+    where
+        R: rand::Rng + ?Sized,
+    {
+        Ok(array.to_vec())
+    }
+
+    fn inv_transform_normalize(
+        &mut self,
+        _params: &Self::FlowParameters,
+        untransformed_position: &[f64],
+        untransformed_gradient: &[f64],
+        transformed_position: &mut [f64],
+        transformed_gradient: &mut [f64],
+    ) -> Result<f64, Self::LogpError> {
+        transformed_position.copy_from_slice(untransformed_position);
+        transformed_gradient.copy_from_slice(untransformed_gradient);
+        Ok(0.0)
+    }
+
+    fn init_from_untransformed_position(
+        &mut self,
+        _params: &Self::FlowParameters,
+        untransformed_position: &[f64],
+        untransformed_gradient: &mut [f64],
+        transformed_position: &mut [f64],
+        transformed_gradient: &mut [f64],
+    ) -> Result<(f64, f64), Self::LogpError> {
+        let logp = Self::logp_grad(untransformed_position, untransformed_gradient);
+        transformed_position.copy_from_slice(untransformed_position);
+        transformed_gradient.copy_from_slice(untransformed_gradient);
+        Ok((logp, 0.0))
+    }
+
+    fn init_from_transformed_position(
+        &mut self,
+        _params: &Self::FlowParameters,
+        untransformed_position: &mut [f64],
+        untransformed_gradient: &mut [f64],
+        transformed_position: &[f64],
+        transformed_gradient: &mut [f64],
+    ) -> Result<(f64, f64), Self::LogpError> {
+        untransformed_position.copy_from_slice(transformed_position);
+        let logp = Self::logp_grad(untransformed_position, untransformed_gradient);
+        transformed_gradient.copy_from_slice(untransformed_gradient);
+        Ok((logp, 0.0))
+    }
+
+    fn update_transformation<'a, R: rand::Rng + ?Sized>(
+        &'a mut self,
+        _rng: &mut R,
+        _untransformed_positions: impl ExactSizeIterator<Item = &'a [f64]>,
+        _untransformed_gradients: impl ExactSizeIterator<Item = &'a [f64]>,
+        _untransformed_logp: impl ExactSizeIterator<Item = &'a f64>,
+        params: &'a mut Self::FlowParameters,
+    ) -> Result<(), Self::LogpError> {
+        self.updates.fetch_add(1, std::sync::atomic::Ordering::SeqCst);
+        params.id += 1;
+        Ok(())
+    }
+
+    fn init_transformation<R: rand::Rng + ?Sized>(
+        &mut self,
+        _rng: &mut R,
+        _untransformed_position: &[f64],
+        _untransformed_gradient: &[f64],
+        _chain: u64,
+    ) -> Result<Self::FlowParameters, Self::LogpError> {
+        Ok(IdentityFlow { id: 0 })
+    }
+
+    fn new_transformation<R: rand::Rng + ?Sized>(
+        &mut self,
+        _rng: &mut R,
+        _dim: usize,
+        _chain: u64,
+    ) -> Result<Self::FlowParameters, Self::LogpError> {
+        Ok(IdentityFlow { id: 0 })
+    }
+
+    fn transformation_id(&self, params: &Self::FlowParameters) -> Result<i64, Self::LogpError> {
+        Ok(params.id)
+    }
+}
+
+
+/// C06 (flow presets): same question as `last_step` for ExternalTransformAdaptation
+fn flow_last_step(p: &Value) -> Value {
+    let n = p["num_tune"].as_u64().unwrap_or(30);
+    let w = p["step_size_window"].as_f64().unwrap_or(0.0);
+    let r = quiet(|| {
+        let mut settings = nuts_rs::FlowNutsSettings::default();
+        settings.num_tune = n;
+        settings.num_draws = 10;
+        settings.maxdepth = 6;
+        settings.adapt_options.step_size_window = w;
+        settings.adapt_options.step_size_settings.jitter = None;
+        let math = CpuMath::new(FlowNormal { dim: 3, updates: Default::default() });
+        let mut rng = rand::rngs::StdRng::seed_from_u64(42);
+        let mut chain = settings.new_chain(0, math, &mut rng);
+        chain.set_position(&[0.3, -0.2, 0.1]).unwrap();
+        let mut installed = f64::NAN;
+        let mut bars = vec![];
+        for d in 0..(n + 10) {
+            let (_pos, _e, stats, prog) = chain.expanded_draw().unwrap();
+            if d + 1 == n {
+                installed = prog.step_size;
+            }
+            if d >= n {
+                bars.push(stats.adapt.step_size.step_size_bar);
+            }
+        }
+        (installed, bars)
+    });
+    match r {
+        Ok((s, bars)) => json!({"confirmed": n > 0 && s != bars[0], "step_for_first_sampling_draw": s, "final_averaged_step": bars[0], "num_tune": n, "step_size_window": w}),
+        Err(msg) => json!({"confirmed": false, "panicked": true, "message": msg}),
+    }
+}
+
 fn main() {
     let args: Vec<String> = std::env::args().collect();
     let fam = args.get(1).map(|s| s.as_str()).unwrap_or("");
@@ -338,6 +517,7 @@ fn main() {
         "last_step" => last_step(&p),
         "hashmap_finalize" => hashmap_finalize(&p),
         "chain_failure" => chain_failure(&p),
+        "flow_last_step" => flow_last_step(&p),
         _ => json!({"error": "unknown family"}),
     };
     println!("{}", out);
